@@ -49,7 +49,7 @@ def mon_C01(sc, trace, probes, info):
             lt, lturn = last
             if t < lt:
                 out.append(('clock went backwards: activation at %r after %r' % (t, lt), None))
-            elif t == lt and turn != lturn + 1:
+            elif t == lt and turn != lturn + 1 and t != INF:
                 out.append(('turn counter not consecutive within time %r: %r after %r' % (t, turn, lturn), None))
             elif t > lt and turn != 1:
                 out.append(('first activation of time %r has turn %r' % (t, turn), None))
@@ -82,6 +82,9 @@ def mon_C01(sc, trace, probes, info):
     times = [e[0] for e in trace]
     if any(b < a for a, b in zip(times, times[1:])):
         out.append(('event times decrease in the trace', None))
+    e = info.get('exc')
+    if isinstance(e, AssertionError) and not hasattr(e, 'serial') and 'schedule date' in str(e):
+        out.append(('a valid timed wait tripped the usage assertion of Loop.schedule: %r' % (e,), None))
     return out
 
 
